@@ -277,13 +277,13 @@ def r01_1(run, model):
 def run(run, model):
     trs = P.discover(model)
     run.anchor("IR traversals discovered", f"{len(trs)} (function, enum) matches with >=5 explicit variants")
-    r01_2(run, model, trs)
-    r01_3(run, model, trs)
-    r01_4(run, model, trs)
-    r01_1(run, model)
-    c09.r09_1(run, model)
-    c09.r09_3(run, model)
-    c06.r06_2(run, model)
+    run.try_rule(r01_2, model, trs)
+    run.try_rule(r01_3, model, trs)
+    run.try_rule(r01_4, model, trs)
+    run.try_rule(r01_1, model)
+    run.try_rule(c09.r09_1, model)
+    run.try_rule(c09.r09_3, model)
+    run.try_rule(c06.r06_2, model)
     run.assume("pipeline::compile returns the AST only when lowering pushed no error, so a None after push_error cannot reach later stages")
     run.assume("`?` on a raw CST accessor in ast::lower is sound only if the parser emits that child in every error-free tree (not decided here)")
     run.assume("restructuring arms (decision trees, closure conversion, ANF naming, Go statement shapes) are outside R01.4 by construction: they build a different variant")
